@@ -1,3 +1,4 @@
+import MxModel.Generated.Tables
 /-!
 # Capture: how modelx turns a definition text into `Formula.source`
 
@@ -24,8 +25,12 @@ triple-quoted literal (the escape sequences `quote_docstring` writes, and a few 
 too is compared on every generated text (`ast.literal_eval` of the quoted text).
 
 State of /repo described: 35c2f08 (`replace_docstring` replaces the whole docstring
-expression and separates the literal from a one-line body by `"; "`) and 2b72506
-(`quote_docstring`).
+expression and separates the literal from a one-line body by `"; "`), 2b72506
+(`quote_docstring`), 067a1c5 (`remove_decorator` / `replace_funcname` cut the source with
+`_source_lines`, i.e. at `\r\n`, `\r`, `\n` only – the lines of the grammar hold none of the other
+characters at which `str.splitlines` splits, so the two cuts coincide on every text of the model) and
+9feb00a (the end of the docstring / lambda is taken from the token's start and text, not from
+`last_token.endpos`; the model never used the misreported column).
 -/
 namespace MxModel.Capture
 
@@ -260,21 +265,12 @@ def q3 : Line := ['"', '"', '"']
 
 /-! ### `quote_docstring` -/
 
-/-- `_DOCSTR_ESCAPES`: the backslash, NUL, and every character other than the line feed at
-which `str.splitlines()` (used by `remove_decorator`/`replace_funcname`) or the tokenizer
-(`\r`) would start a new line -/
+/-- `_DOCSTR_ESCAPES` as it stands in `modelx/core/formula.py` now (read by the table translator
+on every run, `Generated/Tables.lean`; compared with the table the proofs were made for by
+`Proofs/Capture.lean: docEscapes_eq`): the backslash, NUL, and every character other than the
+line feed at which `str.splitlines()` or the tokenizer (`\r`) would start a new line -/
 def docEscapes : List (Char × List Char) :=
-  [('\\', ['\\', '\\']),
-   (Char.ofNat 0, ['\\', 'x', '0', '0']),
-   ('\r', ['\\', 'r']),
-   (Char.ofNat 0x0b, ['\\', 'x', '0', 'b']),
-   (Char.ofNat 0x0c, ['\\', 'x', '0', 'c']),
-   (Char.ofNat 0x1c, ['\\', 'x', '1', 'c']),
-   (Char.ofNat 0x1d, ['\\', 'x', '1', 'd']),
-   (Char.ofNat 0x1e, ['\\', 'x', '1', 'e']),
-   (Char.ofNat 0x85, ['\\', 'x', '8', '5']),
-   (Char.ofNat 0x2028, ['\\', 'u', '2', '0', '2', '8']),
-   (Char.ofNat 0x2029, ['\\', 'u', '2', '0', '2', '9'])]
+  MxModel.Generated.docstrEscapes.map (fun p => (Char.ofNat p.1, p.2.map Char.ofNat))
 
 /-- `_DOCSTR_ESCAPES.get(c, c)` -/
 def escapeChar (c : Char) : List Char :=
